@@ -37,7 +37,23 @@ def _lazy():
         def tree_unflatten(cls, aux, children):
             return cls(*children)
 
-    _state.update(np=np, jtu=jtu, Float=Float, Int=Int, Shaped=Shaped, PyTree=PyTree, Cust=Cust)
+    @jtu.register_pytree_node_class
+    class ACust:
+        """a registered node that is also array-like: shape (2,), float32"""
+        shape = (2,)
+        dtype = np.dtype("float32")
+
+        def __init__(self, *children):
+            self.children = children
+
+        def tree_flatten(self):
+            return self.children, len(self.children)
+
+        @classmethod
+        def tree_unflatten(cls, aux, children):
+            return cls(*children)
+
+    _state.update(np=np, jtu=jtu, Float=Float, Int=Int, Shaped=Shaped, PyTree=PyTree, Cust=Cust, ACust=ACust)
     return _state
 
 
@@ -69,6 +85,8 @@ def render_tree(x, rng=None):
         return NT(*cs)
     if k == "cust":
         return st["Cust"](*cs)
+    if k == "acust":
+        return st["ACust"](*cs)
     raise ValueError(k)
 
 
@@ -92,7 +110,9 @@ def render_leaftype(L):
         t = typing.Any
     elif k == "arr":
         d = {"f": st["Float"], "i": st["Int"], "s": st["Shaped"]}[L[2]]
-        if len(L[1]) >= 2:   # written by nesting: outer dims prepended to an inner annotation
+        if len(L) >= 4 and L[3] == "any":
+            t = d[typing.Any, R.dim_str(L[1])]
+        elif len(L[1]) >= 2:   # written by nesting: outer dims prepended to an inner annotation
             t = R.array_ann_nested(L[1], 1, dtype=d)
         else:
             t = d[st["np"].ndarray, R.dim_str(L[1])]
@@ -156,6 +176,8 @@ def _abs_obj(o):
         return {"k": "dict", "c": [_abs_obj(o[k]) for k in ks], "keys": ks}
     if isinstance(o, st["Cust"]):
         return {"k": "cust", "c": [_abs_obj(c) for c in o.children], "keys": []}
+    if isinstance(o, st["ACust"]):
+        return {"k": "acust", "c": [_abs_obj(c) for c in o.children], "keys": []}
     raise ValueError(type(o))
 
 
@@ -242,6 +264,8 @@ def _rebuild(s, cs):
         return NT(*cs)
     if k == "cust":
         return st["Cust"](*cs)
+    if k == "acust":
+        return st["ACust"](*cs)
     raise ValueError(k)
 
 
@@ -263,6 +287,8 @@ def struct_to_tree(s):
         return NT(*cs)
     if k == "cust":
         return st["Cust"](*cs)
+    if k == "acust":
+        return st["ACust"](*cs)
     raise ValueError(k)
 
 
@@ -429,7 +455,7 @@ def tree_str(x):
     if k == "dict":
         inner = ",".join(f"{kk}:{tree_str(c)}" for kk, c in zip(x["keys"], x["c"]))
         return "{" + inner + "}"
-    return {"tuple": "(", "list": "[", "nt": "NT(", "cust": "Cust("}[k] + inner + {"tuple": ")", "list": "]", "nt": ")", "cust": ")"}[k]
+    return {"tuple": "(", "list": "[", "nt": "NT(", "cust": "Cust(", "acust": "ACust("}[k] + inner + {"tuple": ")", "list": "]", "nt": ")", "cust": ")", "acust": ")"}[k]
 
 
 LEAF_INVS = ["Rollback", "NestEquiv", "NoneAccepted", "Idempotent", "Monotone", "QKeysDisjoint", "QPerLeaf"]
